@@ -30,7 +30,16 @@ pub(super) fn execute_skip<'a, S: GraphSnapshot + 'a>(
         Err(err) => return PlanIterator::Dynamic(Box::new(std::iter::once(Err(err)))),
     };
     let input_iter = execute_plan(snapshot, input, params);
-    PlanIterator::Dynamic(Box::new(input_iter.skip(skip)))
+    // Only rows are skipped: an error in the skipped prefix is a failure of the whole query.
+    let mut remaining = skip;
+    PlanIterator::Dynamic(Box::new(input_iter.filter(move |row| {
+        if row.is_ok() && remaining > 0 {
+            remaining -= 1;
+            false
+        } else {
+            true
+        }
+    })))
 }
 
 pub(super) fn execute_limit<'a, S: GraphSnapshot + 'a>(
